@@ -46,7 +46,7 @@ def cases(tier, seed):
                        'rcpts': [['pass', i % len(PASSES), h]], 'sk': 'gen', 'signed': False, 'armor': i % 2 == 1})
             i += 1
     # A3: recipient sets of size 2..4 mixing keys and passphrases, both orders
-    for n in range(24 if tier == 'quick' else 300):
+    for n in range(24 if tier == 'quick' else 1500):
         k = r.randint(2, 4)
         rs = []
         for _ in range(k):
